@@ -27,7 +27,7 @@ from vlib.front import unparse, dotted, const_value, AnchorMissing
 M = 'phylib/io/model.py'
 U_ = 'phylib/utils/_misc.py'
 ALF = 'phylib/io/alf.py'
-FLOOR = 19
+FLOOR = 16
 SUBSET = ['_phy_spikes_subset.waveforms.npy', '_phy_spikes_subset.spikes.npy', '_phy_spikes_subset.channels.npy']
 EXPLANATION = ('fx engine over the call trees of the four saving methods of TemplateModel (effects with root and name pattern, symbolic '
                'field name) compared with a per-method whitelist; tab rules compare the names / header / exclusion list used by the savers '
@@ -130,7 +130,7 @@ def t1_agreement(ctx):
     repo = ctx.repo
     cls = repo.cls(M, 'TemplateModel')
     lm = repo.lookup_method(cls, '_load_metadata')
-    globs = [const_value(c.args[0]) for c in lm.calls() if q.method_name(c) == 'glob' and c.args]
+    globs = [v for c in lm.calls() if q.method_name(c) == 'glob' and c.args for v in (q.const_values(lm, c.args[0]) or [None])]
     excl = None
     for a in lm.nodes(ast.Assign):
         if isinstance(a.value, (ast.Tuple, ast.List)) and all(isinstance(const_value(e), str) for e in a.value.elts):
@@ -145,8 +145,15 @@ def t1_agreement(ctx):
         ctx.check(not hit, 'C10.T1', lm, 'excluded stem %r' % ex, 'excluded stem %r is not the name of a saved metadata file' % ex,
                   'the loader skips the file stem %r, which is exactly what save_metadata(%r, .) writes: that field is saved but never reloaded' % (ex, ex[len('cluster_'):]))
     # exclusion must be tested on the stem
-    uses_stem = any(isinstance(n, ast.Compare) and 'stem' in unparse(n.left) and isinstance(n.ops[0], ast.In) for n in ast.walk(lm.node))
-    ctx.check(uses_stem, 'C10.T1', lm, '_load_metadata', 'exclusion is decided on the file stem', 'exclusion is not decided on the file stem')
+    memb = [n for n in ast.walk(lm.node) if isinstance(n, ast.Compare) and len(n.ops) == 1 and isinstance(n.ops[0], (ast.In, ast.NotIn))]
+    uses_stem = [n for n in memb if 'stem' in unparse(n.left)]
+    uses_name = [n for n in memb if '.name' in unparse(n.left) or unparse(n.left).startswith('str(')]
+    if uses_stem:
+        ctx.holds('C10.T1', lm, 'exclusion is decided on the file stem', uses_stem[0])
+    elif uses_name:
+        ctx.violated('C10.T1', lm, uses_name[0], 'exclusion is decided on `%s`, not on the file stem: the excluded names carry no extension' % unparse(uses_name[0].left))
+    else:
+        ctx.undecided('C10.T1', lm, 'the exclusion test of _load_metadata was not recognised')
     # header key
     ws = repo.func(U_, '_write_tsv_simple')
     hdr = [c for c in q.calls_named(ws, 'writerow')]
@@ -264,27 +271,32 @@ def p1_d1(ctx):
     sm = repo.lookup_method(cls, 'save_metadata')
     c = [x for x in sm.calls() if dotted(x.func) == 'save_metadata']
     ok = False
+    und_d = True
     if c and len(c[0].args) == 3:
-        d = c[0].args[2]
+        d = sm.expand(c[0].args[2])
         if isinstance(d, ast.DictComp):
+            und_d = False
             g = d.generators[0]
             ok = any(q.simple_compare(i) and q.simple_compare(i)[1] == 'is not' and const_value(q.simple_compare(i)[2]) is None and
                      unparse(q.simple_compare(i)[0]) == unparse(d.value) for i in g.ifs) and unparse(g.iter) == '%s.items()' % sm.params[2]
             kv = isinstance(g.target, ast.Tuple) and unparse(d.key) == unparse(g.target.elts[0]) and unparse(d.value) == unparse(g.target.elts[1])
             ok = ok and kv
-    ctx.check(ok, 'C10.D1', sm, c[0] if c else 'save_metadata', 'None entries are dropped and every other (cluster, value) pair is written unchanged',
+    if und_d and c:
+        ctx.undecided('C10.D1', sm, 'the mapping handed to the writer is not a dictionary comprehension over the given values', c[0])
+    else:
+      ctx.check(ok, 'C10.D1', sm, c[0] if c else 'save_metadata', 'None entries are dropped and every other (cluster, value) pair is written unchanged',
               'save_metadata does not write exactly the non-None (cluster, value) pairs')
     ctx.check(bool(c) and unparse(c[0].args[1]) == sm.params[1], 'C10.D1', sm, c[0] if c else 'save_metadata', 'the field name is the column header', 'the column header is not the field name')
     # override semantics in load_metadata / _load_metadata
     ldm = repo.func(M, 'load_metadata')
     PL = Pat(ldm)
-    cid = PL.stmt("V_cid = V_row['cluster_id']")
+    cid = PL.stmt("V_cid = V_row['cluster_id']") or PL.stmt("V_cid = V_row.get('cluster_id')")
     inner = [f for f in ldm.nodes(ast.For) if isinstance(f.iter, ast.Call) and q.method_name(f.iter) == 'items' and isinstance(f.target, ast.Tuple) and len(f.target.elts) == 2]
     if cid is None or not inner:
         ctx.undecided('C10.D1', ldm, 'row loop of load_metadata (cluster id + items of the row) not recognised')
     else:
         fld, val = (unparse(x) for x in inner[0].target.elts)
-        st = PL.stmt('V_out[%s][V_cid] = %s' % (fld, val), within=inner[0])
+        st = PL.stmt('V_out[%s][V_cid] = %s' % (fld, val), within=inner[0]) or PL.stmt('V_out.setdefault(%s, {})[V_cid] = %s' % (fld, val), within=inner[0])
         st_bad = None
         if st is None:
             st_bad = PL.stmt('V_out[V_cid][%s] = %s' % (fld, val), within=inner[0]) or PL.stmt('V_out[%s][V_cid] = E_other' % fld, within=inner[0]) or \
